@@ -712,6 +712,12 @@ func main() {
 			}
 		}
 	}
+	// process-wide state: package-level variables of every package of the module that some function writes at run time.  Such a
+	// variable is shared by the connection goroutines of EVERY Server of the process, so no lock that lives in a Server (or any
+	// other object) orders the accesses: only package-level locks count for these rows.
+	for _, g := range globalRows(dir) {
+		rows = append(rows, rowT{g.loc, "conn", g.write, g.held, false, g.where})
+	}
 	// numbering
 	locIdx, lockIdx := map[string]int{}, map[string]int{}
 	var locs, locks []string
@@ -800,6 +806,199 @@ func main() {
 	for _, r := range rows {
 		fmt.Printf("%s\t%s\t%v\t%s\t%v\t%s\n", r.loc, r.role, r.write, r.locks.String(), r.own, r.where)
 	}
+}
+
+type globalRow struct {
+	loc   string
+	write bool
+	held  lockset
+	where string
+}
+
+func isPkgLevel(v *types.Var) bool {
+	return v != nil && !v.IsField() && v.Pkg() != nil && v.Parent() == v.Pkg().Scope()
+}
+
+// hasMutex: t is a sync.Mutex / sync.RWMutex or a struct that embeds / contains one as a direct field
+func hasMutex(t types.Type) bool {
+	if p, ok := t.(*types.Pointer); ok {
+		t = p.Elem()
+	}
+	switch t.String() {
+	case "sync.Mutex", "sync.RWMutex":
+		return true
+	}
+	if st, ok := t.Underlying().(*types.Struct); ok {
+		for i := 0; i < st.NumFields(); i++ {
+			switch st.Field(i).Type().String() {
+			case "sync.Mutex", "sync.RWMutex", "*sync.Mutex", "*sync.RWMutex":
+				return true
+			}
+		}
+	}
+	return false
+}
+
+// rootVar: the package-level variable an expression is rooted at (v, v.f, v[i], (*v).f, pkg.V ...), or nil
+func rootVar(info *types.Info, e ast.Expr) *types.Var {
+	for {
+		switch v := e.(type) {
+		case *ast.ParenExpr:
+			e = v.X
+		case *ast.IndexExpr:
+			e = v.X
+		case *ast.SliceExpr:
+			e = v.X
+		case *ast.StarExpr:
+			e = v.X
+		case *ast.SelectorExpr:
+			if obj, ok := info.Uses[v.Sel].(*types.Var); ok && isPkgLevel(obj) {
+				return obj // pkg.V
+			}
+			e = v.X
+		case *ast.Ident:
+			if obj, ok := info.Uses[v].(*types.Var); ok && isPkgLevel(obj) {
+				return obj
+			}
+			return nil
+		default:
+			return nil
+		}
+	}
+}
+
+func globalRows(dir string) []globalRow {
+	cfg := &packages.Config{Mode: packages.NeedName | packages.NeedFiles | packages.NeedSyntax | packages.NeedTypes | packages.NeedTypesInfo | packages.NeedImports | packages.NeedDeps,
+		Dir: dir, Env: append(os.Environ(), "GOFLAGS=-mod=mod", "GOPROXY=off", "GOSUMDB=off")}
+	pkgs, err := packages.Load(cfg, "./redis/...", "./examples/...")
+	if err != nil || packages.PrintErrors(pkgs) > 0 {
+		fmt.Fprintln(os.Stderr, "load (all packages) failed:", err)
+		os.Exit(2)
+	}
+	mine := map[string]bool{}
+	for _, p := range pkgs {
+		mine[p.PkgPath] = true
+	}
+	type acc struct {
+		v     *types.Var
+		write bool
+		held  lockset
+		where string
+	}
+	var all []acc
+	written := map[*types.Var]bool{}
+	for _, p := range pkgs {
+		if strings.HasSuffix(p.PkgPath, "test") && strings.Contains(p.PkgPath, "redistest") {
+			continue // the test-support package is not part of a running server
+		}
+		info := p.TypesInfo
+		for _, file := range p.Syntax {
+			fname := p.Fset.Position(file.Pos()).Filename
+			base := fname
+			if i := strings.LastIndex(base, "/"); i >= 0 {
+				base = base[i+1:]
+			}
+			if strings.HasSuffix(base, "_test.go") || strings.HasPrefix(base, "verif_") {
+				continue
+			}
+			for _, d := range file.Decls {
+				fd, ok := d.(*ast.FuncDecl)
+				if !ok || fd.Body == nil || (fd.Recv == nil && fd.Name.Name == "init") {
+					continue
+				}
+				held := lockset{}
+				lhs := map[ast.Node]bool{}
+				name := fd.Name.Name
+				where := func(n ast.Node) string {
+					pos := p.Fset.Position(n.Pos())
+					return fmt.Sprintf("%s.%s (%s:%d)", p.Name, name, shortPath(pos.Filename), pos.Line)
+				}
+				rec := func(v *types.Var, write bool, n ast.Node) {
+					if v == nil || !mine[v.Pkg().Path()] || isSyncType(v.Type()) {
+						return
+					}
+					if hasMutex(v.Type()) {
+						// a struct variable that carries its own lock: its lock is taken through it, that use is not a data access
+						if _, isCall := n.(*ast.CallExpr); isCall {
+							return
+						}
+					}
+					all = append(all, acc{v, write, held.copy(), where(n)})
+					if write {
+						written[v] = true
+					}
+				}
+				ast.Inspect(fd.Body, func(n ast.Node) bool {
+					switch v := n.(type) {
+					case *ast.DeferStmt:
+						if sel, ok := v.Call.Fun.(*ast.SelectorExpr); ok && (sel.Sel.Name == "Unlock" || sel.Sel.Name == "RUnlock") {
+							if rv := rootVar(info, sel.X); rv != nil && (hasMutex(rv.Type()) || isSyncType(rv.Type())) {
+								return false // stays held to the end of the function
+							}
+						}
+					case *ast.CallExpr:
+						if sel, ok := v.Fun.(*ast.SelectorExpr); ok {
+							if rv := rootVar(info, sel.X); rv != nil && mine[rv.Pkg().Path()] && (hasMutex(rv.Type()) || isSyncType(rv.Type())) {
+								key := "global:" + rv.Pkg().Name() + "." + types.ExprString(sel.X)
+								switch sel.Sel.Name {
+								case "Lock":
+									held[key] = true
+									lhs[sel.X] = true
+									return true
+								case "RLock":
+									if !held[key] {
+										held[key] = false
+									}
+									lhs[sel.X] = true
+									return true
+								case "Unlock", "RUnlock":
+									delete(held, key)
+									lhs[sel.X] = true
+									return true
+								}
+							}
+						}
+						if id, ok := v.Fun.(*ast.Ident); ok && id.Name == "delete" && len(v.Args) > 0 {
+							rec(rootVar(info, v.Args[0]), true, v.Args[0])
+						}
+					case *ast.AssignStmt:
+						for _, l := range v.Lhs {
+							if rv := rootVar(info, l); rv != nil {
+								rec(rv, true, l)
+								lhs[l] = true
+							}
+						}
+					case *ast.IncDecStmt:
+						if rv := rootVar(info, v.X); rv != nil {
+							rec(rv, true, v.X)
+							lhs[v.X] = true
+						}
+					case *ast.UnaryExpr:
+						if v.Op == token.AND {
+							// &v escapes: whoever gets the pointer may write through it
+							if rv := rootVar(info, v.X); rv != nil && !isSyncType(rv.Type()) && !hasMutex(rv.Type()) {
+								rec(rv, true, v.X)
+								lhs[v.X] = true
+							}
+						}
+					case *ast.Ident:
+						if obj, ok := info.Uses[v].(*types.Var); ok && isPkgLevel(obj) {
+							rec(obj, false, v)
+						}
+					}
+					return true
+				})
+			}
+		}
+	}
+	var out []globalRow
+	for _, a := range all {
+		if !written[a.v] {
+			continue // never written after initialisation: read-only data
+		}
+		out = append(out, globalRow{"global:" + a.v.Pkg().Name() + "." + a.v.Name(), a.write, a.held, a.where})
+	}
+	return out
 }
 
 func shortPath(p string) string {
